@@ -113,7 +113,8 @@ func cliMain(args []string) error {
 		dir := filepath.Join(*work, fmt.Sprintf("cli%d", s.ID))
 		_ = os.MkdirAll(dir, 0o755)
 		defer os.RemoveAll(dir)
-		text := []byte(s.Grammar)
+		text := []byte(strings.ReplaceAll(s.Grammar, "#@LONGLINE@", "# "+strings.Repeat("x", 100000)))
+		_ = os.WriteFile(filepath.Join(dir, "other.peg"), text, 0o644)
 		_ = os.WriteFile(filepath.Join(dir, "g.peg"), text, 0o644)
 		_ = os.Mkdir(filepath.Join(dir, "gdir"), 0o755)
 		_ = os.Mkdir(filepath.Join(dir, "adir"), 0o755)
@@ -139,6 +140,16 @@ func cliMain(args []string) error {
 		switch s.Sc.Src {
 		case "file":
 			a = append(a, "g.peg")
+			if s.Sc.Dest == "default" {
+				destFile = "g.peg.go"
+			}
+		case "fileopt":
+			a = append(a, "g.peg", "-strict")
+			if s.Sc.Dest == "default" {
+				destFile = "g.peg.go"
+			}
+		case "file2":
+			a = append(a, "g.peg", "other.peg")
 			if s.Sc.Dest == "default" {
 				destFile = "g.peg.go"
 			}
